@@ -105,6 +105,12 @@ def op_event(tid, cls, p, op, arg, refs, history):
         ev['post'] = {'broken': True}
         ev['axis'] = {'broken': True}
         return ev
+    if op == 'GetConverted' and ok:
+        vec = np.asarray(res)
+        if res is None or vec.ndim != 1 or vec.dtype == object:
+            ev['ret'] = {'valid': True, 'fresh': False, 'layout': 'unknown', 'scaled': 9, 'len': 0, 'staleof': -1}
+        else:
+            ev['ret'] = D.identify(vec, dict(ev['post'], sides=arg), refs, history)
     if op == 'ReadPsd' and ok:
         vec = np.asarray(res)
         if vec.ndim != 1 or vec.dtype == object:
@@ -232,6 +238,7 @@ def random_ops(cls, dt, rng):
         if cls.name == 'parma':
             ops += [('SetLag', l) for l in cls.lags]
     ops += [('Call', 0), ('ReadPsd', 0), ('ReadPsd', 0), ('ReadPsd', 0)]
+    ops += [('GetConverted', s) for s in ('onesided', 'twosided', 'centerdc')]
     return ops
 
 
@@ -251,7 +258,9 @@ def directed_scripts(cls, dt):
     rd = ['ReadPsd', 0]
     s = [[rd, ['SetData', same_values], rd, ['SetData', back], rd],
          [rd, ['SetNFFT', 0], rd, ['SetSides', 'centerdc'], ['SetNFFT', 0], rd, ['SetNFFT', 1], ['SetSides', 'centerdc'], ['SetNFFT', 1], rd],
-         [rd, ['SetSampling', 2048], rd, ['SetSampling', 2048], rd, ['SetScale', True], rd, ['SetScale', True], rd]]
+         [rd, ['SetSampling', 2048], rd, ['SetSampling', 2048], rd, ['SetScale', True], rd, ['SetScale', True], rd],
+         [rd, ['SetNFFT', 33], ['GetConverted', 'twosided'], ['SetNFFT', 24], ['GetConverted', 'onesided' if dt == 'real' else 'twosided'],
+          ['SetData', {'data': 2, 'N': D.token_len(dt, 2), 'dt': dt}], ['GetConverted', 'centerdc'], rd]]
     if cls.kind == 'parametric':
         s.append([rd, ['SetArOrder', cls.ar[-1]], rd, ['SetArOrder', cls.ar[0]], rd])
         if cls.ma != (0,):
@@ -284,8 +293,11 @@ def random_walks(chk, cls, dt, rec, refs, rng, nwalks, length):
                 op, arg = fixed[_s]
             else:
                 op, arg = rng.choice(ops)
-                while op == 'SetSides' and arg == 'onesided' and p.datatype == 'complex':
-                    op, arg = rng.choice(ops)      # one-sided is not a layout of complex data (rejected: C06)
+                # one-sided is not a layout of complex data (rejected: C06); get_converted_psd is a conversion of a
+                # *stored* PSD (C06): it is only exercised once a PSD has been computed (possibly out of date since)
+                while (op in ('SetSides', 'GetConverted') and arg == 'onesided' and p.datatype == 'complex') or \
+                      (op == 'GetConverted' and p._Spectrum__psd is None):
+                    op, arg = rng.choice(ops)
             script.append([op, arg])
             ev = op_event(tid, cls, p, op, arg, refs, history)
             rec.add(ev, dict(meta, upto=len(script)))
@@ -313,7 +325,7 @@ def clean_event(ev):
 
 def signature(ev, clause, prev):
     cls = ev['cls']
-    if clause in ('read-fresh', 'read-layout', 'read-scaled-once', 'read-length'):
+    if clause in ('read-fresh', 'read-layout', 'read-scaled-once', 'read-length', 'converted-fresh', 'converted-layout', 'converted-length'):
         # what happened just before the read decides which defect this is
         before = prev['op'] if prev is not None and prev['tid'] == ev['tid'] else 'Snap'
         if clause == 'read-scaled-once':
@@ -323,7 +335,7 @@ def signature(ev, clause, prev):
 
 
 C07_CLAUSES = ('no-exception', 'attributes', 'axis', 'read-fresh', 'read-layout', 'read-length',
-               'unchanged-value-changes-nothing')
+               'converted-fresh', 'converted-layout', 'converted-length', 'unchanged-value-changes-nothing')
 
 
 def validate(chk, rec, part, chunk=40000, clauses=C07_CLAUSES, prop='C07'):
